@@ -597,8 +597,14 @@ def wl_render(ctx, idx, rng):
     o = "render"
     form = int(rng.integers(4))
     prec = int(rng.integers(0, 19))
+    ukw = {}
+    if rng.random() < 0.3:
+        # the unit spelled out: any spelling of "cycle" is the exact two-double rendering
+        import pickle
+        ukw["unit"] = gen.pick(rng, [u.cycle, "cycle", "cy", u.Unit("cycle"), (u.cycle / u.s * u.s), pickle.loads(pickle.dumps(u.cycle)),
+                                     (1.0 * u.cycle).unit])
     if form == 0:
-        s, exc = ctx.call(o, p.to_string, where="to_string()")
+        s, exc = ctx.call(o, p.to_string, where=f"to_string({ukw})", **ukw)
         if exc is None:
             # round trip
             back, e2 = ctx.call(o, Phase.from_string, str(s), where="from_string(to_string(p))")
@@ -609,7 +615,7 @@ def wl_render(ctx, idx, rng):
                     ctx.violation(o, f"from_string(to_string(p)) = {float(bv[0])!r} != p = {float(exact_v[0])!r} (text {s!r})", None,
                                   {"what": "roundtrip"})
     elif form == 1:
-        ctx.call(o, p.to_string, where="to_string(precision)", precision=prec, alwayssign=bool(rng.integers(2)))
+        ctx.call(o, p.to_string, where=f"to_string(precision, {ukw})", precision=prec, alwayssign=bool(rng.integers(2)), **ukw)
     elif form == 2 and not imag:
         spec = gen.pick(rng, ["", "+", " "]) + gen.pick(rng, ["", "", "0"]) + gen.pick(rng, ["", "", str(int(rng.integers(1, 30)))]) + f".{prec}f"
         if spec.startswith(" "):
